@@ -28,9 +28,39 @@ def is_sd_of(t, var):
                  ("binop", "**", var, ("binop", "/", ("const", 1), ("const", 2))))
 
 
+def deepcopied_by_anm(prog):
+    """does ANM.__init__ keep copy.deepcopy(noise_distributions)?  (-> the stored attribute's fact, or None)"""
+    f = prog.func("sempler.anm.ANM.__init__")
+    if f is None:
+        return None
+    S = Sym(prog)
+    run_function(S, f)
+    for a in S.select("attrstore", qname=f.qname):
+        if any(isinstance(x, tuple) and x[:2] == ("ext", "copy.deepcopy") and any(("param", "noise_distributions") in list(walk(y)) for y in x[2]) for x in walk(a.value)):
+            return a
+    return None
+
+
+def holds_global_generator(clo):
+    """a partial / bound method over numpy.random.<draw> keeps a reference to numpy's global RandomState *object*; copy.deepcopy
+    rebuilds such an object around a private clone of the generator (plain functions are atomic under deepcopy)"""
+    from ..core import PartialV, ExtRef
+    while isinstance(clo, PartialV):
+        if isinstance(clo.fv, ExtRef) and clo.fv.dotted.startswith("numpy.random."):
+            return clo.fv.dotted
+        clo = clo.fv
+    return None
+
+
 def run(prog, rep, tier):
+    dc = deepcopied_by_anm(prog)
     for name, (target, slots, defaults) in SPEC.items():
         S, f, clo, res, facts = factory_closure(prog, NO + name)
+        held = holds_global_generator(clo)
+        if dc is not None:
+            rep.check("R6.copy-stable", held is None, fwhere(f), "%s returns a plain function: ANM's deepcopy of the noise distributions keeps it on the global stream" % name,
+                      "%s returns functools.partial over the bound method %s: copy.deepcopy (ANM.__init__ stores deepcopy(noise_distributions)) clones numpy's "
+                      "global RandomState into the copy, which then ignores np.random.seed" % (name, held))
         draws = [c for c in facts if c.kind == "call" and c.callkind == "ext" and (c.target.startswith("numpy.random.") or c.target.startswith("random."))]
         gens = [c for c in facts if c.kind == "call" and c.callkind == "method" and c.target.lstrip(".") in api.GENERATOR_DRAWS]
         w = fwhere(f)
